@@ -35,7 +35,10 @@ TinyCases == [kind : {"tiny"}, a : TinyStrings, b : TinyStrings]
 
 Cases == CASE Kind = "stream" -> StreamCases [] Kind = "combine" -> CombineCases [] OTHER -> TinyCases
 
-CInit == InitWith(0, FALSE) /\ hist = <<>> /\ case \in Cases
+\* Kind = "all": the three case spaces as three groups of initial states (one TLC run)
+CInit == /\ InitWith(0, FALSE) /\ hist = <<>>
+         /\ IF Kind = "all" THEN (case \in StreamCases \/ case \in CombineCases \/ case \in TinyCases)
+            ELSE case \in Cases
 CNext == UNCHANGED gvars
 CSpec == CInit /\ [][CNext]_gvars
 EmitCase == PrintT(ToJson(case))
